@@ -20,7 +20,10 @@ CONSTANTS
   OPS = {"clear", "clone", "clonef", "collect", "drop", "fagain", "mark", "new", "put", "set", "take", "unwrap"}
   AUTOF = TRUE
   AUTO0 = FALSE
-  SZ = 152
+  SZ = 160
+  CLEAN = FALSE
+  MaxActs = 0
+  BUG_CLEAN_REENTRANT = FALSE
 INVARIANT NoViolation
 INVARIANT StructInv
 VIEW View
